@@ -5,6 +5,7 @@ import NibabelModel.Lemmas.C05_inv
 import NibabelModel.Lemmas.C05_canon
 import NibabelModel.Lemmas.C05_io
 import NibabelModel.Lemmas.C05_slicer
+import NibabelModel.Lemmas.C05_hist
 import NibabelModel.Generated.C05
 /-! Props/C05 — property theorems for C05 (reorienting, canonicalising and slicing keep each voxel
     at its world position).  See DESIGN.md §5 C05.  All statements are about Model/C05.lean, which
@@ -421,6 +422,73 @@ theorem canonical_second_is_self (A : Aff Int) (shape : List Nat) (d : DimInfo) 
 
 example : ioOrientation [[4, 0, 1], [0, 3, 0], [1, 0, 5]] 3 0 = identityOrnt.map some := by decide
 
+/-! ### the value source is the data object, never the `get_fdata` cache (image state × history) -/
+
+
+/-- **hist_wf** — the cache bookkeeping invariant (an `_fdata_cache` that IS the data object exists only on
+    an array image whose array has that very dtype, and then has the data object's contents) holds for a
+    fresh/loaded image and after EVERY history of `get_fdata(dtype, caching)` / in-place edit / `uncache`. -/
+theorem hist_wf (proxy : Bool) (arrFD : Option FD) (n : Nat) (h : List HStep) :
+    ((ImgSt.init proxy arrFD n).run h).WF :=
+  run_wf _ (init_wf proxy arrFD n) h
+
+example : ((ImgSt.init false (some .f8) 3).run [.getFdata .f8 true true]).cache = some ⟨.f8, [2, 1, 0], true⟩ := by decide
+
+/-- **hist_data_spec** — for EVERY image kind and EVERY history: what the data object holds afterwards
+    is `dataSpec`, a function of the image kind and the steps that never looks at the cache (so
+    `caching='fill'` vs `'unchanged'`, cache hits and `uncache` are irrelevant to it); the image kind does
+    not change. -/
+theorem hist_data_spec (s : ImgSt) (hw : s.WF) (h : List HStep) :
+    (s.run h).data = dataSpec s.proxy s.arrFD h s.data ∧ (s.run h).proxy = s.proxy ∧ (s.run h).arrFD = s.arrFD :=
+  run_data s hw h
+
+example : (ImgSt.init false (some .f4) 4).WF ∧
+    ((ImgSt.init false (some .f4) 4).run [.getFdata .f8 true true, .getFdata .f4 false true, .uncache]).data = [3, 2, 1, 0] :=
+  ⟨init_wf _ _ _, by decide⟩
+
+/-- **values_history_independent** — on a proxy image (loaded from disk) and on an array image whose
+    array is not of a native floating dtype, an operation that gathers voxels `srcs` returns exactly the
+    same values after ANY history as on the untouched image: every voxel keeps its value whatever was
+    done with the image before (float32 caches, edited caches, uncache ...). -/
+theorem values_history_independent (s : ImgSt) (hw : s.WF) (hk : s.proxy = true ∨ s.arrFD = none)
+    (h : List HStep) (srcs : List Nat) : (s.run h).values srcs = s.values srcs := by
+  unfold ImgSt.values
+  rw [(run_data s hw h).1, dataSpec_inert _ _ hk]
+
+example : (ImgSt.init true none 6).WF ∧ ((ImgSt.init true none 6).proxy = true ∨ (ImgSt.init true none 6).arrFD = none) ∧
+    ((ImgSt.init true none 6).run [.getFdata .f4 true true]).cache = some ⟨.f4, [5, 4, 3, 2, 1, 0], false⟩ :=
+  ⟨init_wf _ _ _, Or.inl rfl, by decide⟩
+
+/-- **values_any_history** — for every image kind the values are a gather of the data object as it is
+    after the history, and that is the original contents or (after an odd number of edits through an
+    aliasing `get_fdata` result on a floating array image) their reversal — never a cache rendering. -/
+theorem values_any_history (s : ImgSt) (hw : s.WF) (h : List HStep) (srcs : List Nat) :
+    (s.run h).values srcs = srcs.map (fun k => s.data.getD k 0) ∨
+    (s.run h).values srcs = srcs.map (fun k => s.data.reverse.getD k 0) := by
+  unfold ImgSt.values
+  rw [(run_data s hw h).1]
+  rcases dataSpec_rev s.proxy s.arrFD h s.data with e | e <;> rw [e]
+  · exact Or.inl rfl
+  · exact Or.inr rfl
+
+/-- **reorient_history_world** — `as_reoriented` on a loaded (proxy) image after ANY history: for each of
+    the 48 orientations, every shape and affine, every output voxel `j` has its source voxel inside the
+    image at the same world position (reorient_world) AND holds the value the data object has there,
+    i.e. the value it would hold had nothing been done with the image before. -/
+theorem reorient_history_world (A : Aff Int) (n0 n1 n2 : Nat) (nr : List Nat) (d : DimInfo) (o : Ornt)
+    (ho : o ∈ allOrnts3) (r : ReorOut)
+    (hr : asReoriented A (n0 :: n1 :: n2 :: nr) d (o.map some) = .ok r)
+    (n : Nat) (arrFD : Option FD) (h : List HStep) (j : List Nat) (hj : j ∈ allIdx r.shape) :
+    (∃ j0 j1 j2 jr x y z,
+      j = j0 :: j1 :: j2 :: jr ∧ r.src (n0 :: n1 :: n2 :: nr) j = x :: y :: z :: jr ∧
+      x < n0 ∧ y < n1 ∧ z < n2 ∧ jr ∈ allIdx nr ∧
+      r.affine.apply j0 j1 j2 = A.apply x y z) ∧
+    ((ImgSt.init true arrFD n).run h).values [ravelC (n0 :: n1 :: n2 :: nr) (r.src (n0 :: n1 :: n2 :: nr) j)] =
+      (ImgSt.init true arrFD n).values [ravelC (n0 :: n1 :: n2 :: nr) (r.src (n0 :: n1 :: n2 :: nr) j)] :=
+  ⟨reorient_world A n0 n1 n2 nr d o ho r hr j hj,
+   values_history_independent _ (init_wf _ _ _) (Or.inl rfl) h _⟩
+
+
 /-! ### constants regenerated from the working tree (Generated/C05.lean, rewritten on every run) -/
 
 /-- **gen_consts_ok**: the default axis labels of BOTH `ornt2axcodes` and `axcodes2ornt`, the
@@ -436,5 +504,21 @@ theorem gen_consts_ok :
   ⟨by decide, by decide, by decide, fun _ _ => rfl, by decide⟩
 
 example : Gen.labelsOrnt2ax.length = 3 ∧ Gen.identityOrnt.length = 3 := by decide
+
+/-- the names through which the cached floating-point rendering of an image's data is reached
+    (dataobj_images.py) -/
+def cacheNames : List String := ["_fdata_cache", "_data_cache", "get_fdata", "get_data", "in_memory", "uncache"]
+
+/-- **gen_value_source_ok** — read from the source of THIS run: none of `SpatialImage.as_reoriented`,
+    `SpatialFirstSlicer.__getitem__`, `Nifti1Pair.as_reoriented`, `as_closest_canonical` touches the
+    `get_fdata` cache of the image (attribute names regenerated from the AST), and the first two do read
+    `dataobj` — the assumption under which `ImgSt.values` (the model's value source) is the code's. -/
+theorem gen_value_source_ok :
+    (Gen.reorientSelfAttrs ++ Gen.slicerImgAttrs ++ Gen.niftiReorientSelfAttrs ++ Gen.canonicalImgAttrs).all
+        (fun a => !cacheNames.contains a) = true ∧
+    Gen.reorientSelfAttrs.contains "dataobj" = true ∧ Gen.slicerImgAttrs.contains "dataobj" = true ∧
+    Gen.canonicalImgAttrs.contains "as_reoriented" = true := by decide
+
+example : Gen.reorientSelfAttrs.length = 5 ∧ cacheNames.length = 6 := by decide
 
 end Nb.C05
